@@ -4,6 +4,7 @@ import (
 	"errors"
 	"fmt"
 	"net"
+	"sync/atomic"
 	"time"
 
 	"github.com/database64128/shadowsocks-go/conn"
@@ -35,6 +36,23 @@ const (
 )
 
 var ErrMTUTooSmall = errors.New("MTU must be at least 1280")
+
+// extendNATConnReadDeadline is called by a relay session's uplink after sending packets
+// to move natConn's read deadline natTimeout into the future. state is the session's state.
+//
+// On shutdown, Stop swaps the session's state and then moves the read deadline into the past
+// to unblock the session's downlink. If the uplink still has queued packets to send, it could
+// extend the deadline again right after that, and Stop would have to wait for the NAT timeout.
+// To prevent that, move the deadline back into the past if the state is no longer natConn.
+func extendNATConnReadDeadline(natConn *net.UDPConn, state *atomic.Pointer[net.UDPConn], natTimeout time.Duration) error {
+	if err := natConn.SetReadDeadline(time.Now().Add(natTimeout)); err != nil {
+		return err
+	}
+	if state.Load() != natConn {
+		return natConn.SetReadDeadline(conn.ALongTimeAgo)
+	}
+	return nil
+}
 
 // UDPPerfConfig exposes performance tuning parameters for UDP relays.
 type UDPPerfConfig struct {
